@@ -109,7 +109,7 @@ var specC03 = &worldSpec{
 func TestC03(t *testing.T) { runWorldSpec(t, withLevel(specC03)) }
 
 // ---------------------------------------------------------------- C04 pruning safety
-var pruneWeights = map[string]int{"set": 22, "remove": 12, "save": 30, "prune": 14, "prune_refuse": 3, "rollback": 3, "reopen": 6, "lvfo": 4, "dvf": 2, "setnil": 0}
+var pruneWeights = map[string]int{"set": 22, "remove": 12, "save": 30, "prune": 14, "prune_refuse": 3, "rollback": 3, "reopen": 6, "lvfo": 4, "dvf": 2, "setnil": 0, "pin": 3, "unpin": 3}
 
 var specC04 = &worldSpec{
 	Prop: "C04",
